@@ -29,6 +29,7 @@ echo "demo with change exit=$rc_with (want non-zero); demo on original exit=$rc_
 tail -5 /tmp/demo_with_$id.log >> $log
 # 4. our checks
 cd /verif
+export VERIF_SEED_EVIDENCE_DIR=$dst/evidence
 git -C /repo apply $dst/patch.diff || { echo "PATCH DOES NOT APPLY TO /repo" | tee -a $log; exit 1; }
 for p in $props; do
   timeout 1200 ./check $p --tier quick > $dst/check_$p.out 2>&1; rc=$?
